@@ -678,6 +678,10 @@ func TestVerifC15E2E(t *testing.T) {
 		rules[i] = e2eGenRule(rr, i)
 	}
 
+	// the witness of C15-F8 is part of every run: rule r0 sets Traceparent by its header finalizer
+	rules[0].PHdrs = [][2]string{{"Traceparent", "from-pipeline"}, {"X-User", "alice"}}
+	rules[0].Setting, rules[0].Rw = "no_decode", nil
+
 	addrs := make([]string, len(e2eTrust))
 
 	// tracing is enabled as in heimdall's default configuration (the tracer provider and the
